@@ -493,9 +493,9 @@ func main() {
 			ncfg = maxCfg
 		}
 		// real-time end-to-end cases first (before the CPU-heavy streams), concurrently
-		ne2e, batch := 6, 6
+		ne2e, batch := 8, 8
 		if a.Tier == "thorough" {
-			ne2e = 30
+			ne2e = 32
 		}
 		if ne2e > a.N/10 {
 			ne2e = a.N / 10
@@ -504,7 +504,7 @@ func main() {
 		for done := 0; done < ne2e; done += batch {
 			var ins []input
 			for i := done; i < ne2e && i < done+batch; i++ {
-				ins = append(ins, genE2E(er))
+				ins = append(ins, genE2E(er, i))
 			}
 			for _, c := range runE2EBatch(ins) {
 				em.Emit(c)
